@@ -10,6 +10,7 @@ import (
 	"time"
 
 	"git.torproject.org/pluggable-transports/snowflake.git/v2/common/messages"
+	"git.torproject.org/pluggable-transports/snowflake.git/v2/common/verifhook"
 	"github.com/prometheus/client_golang/prometheus"
 )
 
@@ -192,6 +193,7 @@ func (i *IPC) ClientOffers(arg messages.Arg, response *[]byte) error {
 
 	snowflake := i.matchSnowflake(offer.natType)
 	if snowflake != nil {
+		verifhook.Point("broker.client.before-offer-send", snowflake.id)
 		snowflake.offerChannel <- offer
 	} else {
 		i.ctx.metrics.lock.Lock()
@@ -219,6 +221,7 @@ func (i *IPC) ClientOffers(arg messages.Arg, response *[]byte) error {
 		// Initial tracking of elapsed time.
 		i.ctx.metrics.clientRoundtripEstimate = time.Since(startTime) / time.Millisecond
 	case <-time.After(time.Second * ClientTimeout):
+		verifhook.Point("broker.client-timeout", snowflake.id)
 		log.Println("Client: Timed out.")
 		resp := &messages.ClientPollResponse{Error: messages.StrTimedOut}
 		err = sendClientResponse(resp, response)
@@ -275,6 +278,7 @@ func (i *IPC) ProxyAnswers(arg messages.Arg, response *[]byte) error {
 	*response = b
 
 	if success {
+		verifhook.Point("broker.answer.before-send", id)
 		snowflake.answerChannel <- answer
 	}
 
